@@ -491,10 +491,13 @@ def f_vol(outdir="out/deep", log="vol", workdir=".", present=1, adopt="none", lo
     return {"plan.py": script(prog), "src.txt": "src\n"}
 
 
-def f_redefine(inp=("src.txt",), out=("r.txt",)):
-    """R: the same command text with a varying signature (partial recycle path)."""
-    prog = [["static", "src.txt", "src2.txt"],
-            ["step", "./r.py", {"inp": ["r.py", *inp], "out": list(out)}],
+def f_redefine(inp=("src.txt",), out=("r.txt",), decl=1):
+    """R: the same command text with a varying signature (partial recycle path).
+    decl=0: the plan no longer declares src.txt static (an input of R that nothing declares)."""
+    # without the declaration the step is also given another argument: a new step, which supplies
+    # its inputs afresh (an unchanged step would be recycled with its old edges)
+    prog = [["static", "src.txt", "src2.txt"] if decl else ["static", "src2.txt"],
+            ["step", "./r.py" if decl else "./r.py nodecl", {"inp": ["r.py", *inp], "out": list(out)}],
             ["static", "r.py"]]
     r = [["write", o, list(inp)] for o in out]
     if "r.txt" in out:
@@ -644,7 +647,8 @@ DOMAINS = {
     "f_vol": {"outdir": ("out/deep", "out2"), "log": ("vol", "out", "none"),
               "workdir": (".", "wd", "wd/in"), "present": (1, 0), "adopt": ("none", "tree", "file"),
               "logdir": ("out", "out/logs")},
-    "f_redefine": {"inp": (("src.txt",), (), ("src.txt", "src2.txt")), "out": (("r.txt",), ("r.txt", "r2.txt"))},
+    "f_redefine": {"inp": (("src.txt",), (), ("src.txt", "src2.txt")), "out": (("r.txt",), ("r.txt", "r2.txt")),
+                   "decl": (1, 0)},
     "f_optional": {"u": (1, 0), "o2_need": ("OPTIONAL", "DEFAULT"), "src": ("x", "y", "!fail")},
     "f_selfprod": {"sub": (1, 0)},
     "f_cutoff": {"multi": (0, 1), "src": ("x", "y"), "v": (1, 2)},
